@@ -97,7 +97,8 @@ def worker(job, r):
                         r.viol('verifier:%s:%s:%s:got=%s' % (pol, hname, lc, got), '%s; cmd=%s first-link-correction=%d rfc3161=%s' % (why, cmd[:200], cc, s.rfc is not None), 'sigparse 0 0 empty %s\n%s' % (raw, cmd))
                     r.count('outcome_' + got)
                     # KSI_Signature_verifyWithPolicy, with and without a caller supplied context
-                    for ctxarg in ([''] + ([pubs] if extra else [])):
+                    for ctxarg in ([''] + ([pubs] if extra else []) + [extra + ' docin=ctx', extra + ' docin=parse']):
+                        # '' / pubs: hash and level as explicit arguments; docin=ctx / docin=parse: both inside the caller's context, explicit arguments NULL / 0
                         q2 = ex.cmd('verify 0 0 %s%s doc=%s lvl=%d api=withpolicy' % (pol, ctxarg, h.hex(), L))
                         r.observe(None)
                         bad2 = None
@@ -109,7 +110,7 @@ def worker(job, r):
                             bad2 = 'matching document: rc %#x but verdict without document %s' % (q2.rc, bres)
                         if bad2:
                             lc = 'L>255' if L > 255 else ('L>c' if lvl_bad else 'L<=c')
-                            r.viol('verifyWithPolicy:%s:%s:%s:%s:rc=%#x' % (pol, 'ctx' if ctxarg else 'noctx', hname, lc, q2.rc), bad2 + '; ' + q2.get('stage', ''), 'sigparse 0 0 empty %s\nverify 0 0 %s%s doc=%s lvl=%d api=withpolicy' % (raw, pol, ctxarg, h.hex(), L))
+                            r.viol('verifyWithPolicy:%s:%s:%s:%s:rc=%#x' % (pol, ('doc-in-ctx' if 'docin=ctx' in ctxarg else 'parseWithPolicy' if 'docin=parse' in ctxarg else 'ctx') if ctxarg else 'noctx', hname, lc, q2.rc), bad2 + '; ' + q2.get('stage', ''), 'sigparse 0 0 empty %s\nverify 0 0 %s%s doc=%s lvl=%d api=withpolicy' % (raw, pol, ctxarg, h.hex(), L))
         # KSI_verifyDataHash / KSI_Signature_verifyDocument (general policy, level 0)
         for hname, h in hash_variants(rng, doc, False):
             q = ex.cmd('verify 0 0 general doc=%s api=datahash' % h.hex())
